@@ -94,6 +94,7 @@ type DEvent struct {
 type DebCase struct {
 	WaitUs int      `json:"wait_us"`
 	Events []DEvent `json:"events"`
+	WorkUs int      `json:"work_us,omitempty"` // virtual time the debounced function itself takes
 	Rep    int      `json:"rep,omitempty"`
 }
 
@@ -125,6 +126,9 @@ func runDeb(w *core.Worker, c DebCase) {
 					mu.Lock()
 					fired = append(fired, firing{ev, time.Since(t0)})
 					mu.Unlock()
+					if c.WorkUs > 0 { // a slow function: later calls and cancels arrive while it runs
+						time.Sleep(time.Duration(c.WorkUs) * us)
+					}
 				}
 			}
 			for i, e := range c.Events {
@@ -144,7 +148,7 @@ func runDeb(w *core.Worker, c DebCase) {
 					cancel()
 				}
 			}
-			time.Sleep(3*wait + time.Millisecond)
+			time.Sleep(3*wait + time.Duration(c.WorkUs)*us + time.Millisecond)
 			synctest.Wait()
 			mu.Lock()
 			defer mu.Unlock()
@@ -452,12 +456,92 @@ func runThr(w *core.Worker, c ThrCase) {
 	}
 }
 
+
+// ================================================================= throttle on real timers
+//
+// Virtual time makes the library's timers fire at their exact instant, so a window that only
+// exists because a real timer callback runs a little late cannot open there. This monitor
+// runs the throttle on the real clock under a storm of triggers and judges ONE-SIDED only: the
+// consumer takes permissions in pairs and brackets each pair with two monotonic clock readings
+// a (before the first Next) and b (after the second); both grants lie inside [a,b], so
+// b-a < period means two permissions less than one period apart - on any machine, at any
+// load. A slow machine can only make the check vacuous, never wrong.
+
+type RTCase struct {
+	PeriodUs int  `json:"period_us"`
+	Trailing bool `json:"trailing"`
+	RunMs    int  `json:"run_ms"`
+	Callers  int  `json:"callers"`
+	Rep      int  `json:"rep,omitempty"`
+}
+
+func runRT(w *core.Worker, c RTCase) {
+	P := time.Duration(c.PeriodUs) * us
+	th := gogu.NewThrottle(P, c.Trailing)
+	stop := make(chan struct{})
+	var wg sync.WaitGroup
+	for k := 0; k < c.Callers; k++ {
+		wg.Add(1)
+		go func(k int) {
+			defer wg.Done()
+			for i := 0; ; i++ {
+				select {
+				case <-stop:
+					return
+				default:
+				}
+				th.Call()
+				if i%64 == k {
+					time.Sleep(time.Duration(1+i%7) * us) // let timer callbacks and the consumer in
+				}
+			}
+		}(k)
+	}
+	pairs, short := 0, 0
+	var worst time.Duration
+	deadline := time.Now().Add(time.Duration(c.RunMs) * time.Millisecond)
+	for time.Now().Before(deadline) {
+		a := time.Now()
+		ok1 := th.Next()
+		ok2 := th.Next()
+		b := time.Now()
+		if !ok1 || !ok2 {
+			w.Violation("throttle.realtime-next-false-without-cancel", fmt.Sprintf("period %v trailing=%v: Next returned false (%v,%v) although Cancel was never called", P, c.Trailing, ok1, ok2))
+			break
+		}
+		pairs++
+		if d := b.Sub(a); d < P {
+			short++
+			if worst == 0 || d < worst {
+				worst = d
+			}
+		}
+		w.Tick()
+	}
+	th.Cancel()
+	close(stop)
+	wg.Wait()
+	w.Count("realtime_permission_pairs_bracketed", int64(pairs))
+	if short > 0 {
+		w.Violation("throttle.realtime-two-permissions-within-one-period", fmt.Sprintf("period %v trailing=%v, %d trigger goroutines: %d of %d bracketed pairs of permissions were taken within less than one period (shortest bracket %v, real monotonic clock)", P, c.Trailing, c.Callers, short, pairs, worst))
+		return
+	}
+	if pairs == 0 {
+		w.R.Inconclusive(1, "realtime-no-pairs")
+		return
+	}
+	w.NonTrivial(core.HashString(core.JSON(c)))
+	if w.WantSample() {
+		w.Sample(map[string]any{"case": c, "pairs": pairs})
+	}
+}
+
 // ================================================================= generators
 
 func TestProp(t *testing.T) {
 	r := core.Start(t, "C20")
 	defer r.Finish()
-	r.Rule("all inside testing/synctest bubbles (-race build), timestamps are exact virtual instants. delay: Delay(d) with Stop at instants around d: not before d, once, not after Stop, does run otherwise. debounce: scripts of call / burst of 3 concurrent calls / cancel with gaps below and above the wait (never equal): a function runs iff no call or cancel follows within the wait, exactly one per burst, never sooner than wait after the latest call. throttle: scripts of Call / burst of 3 concurrent Calls with gaps around the period, consumer goroutines looping on Next (always waiting, late, with simulated work, two consumers), Cancel at the end: permissions >= one period apart, each preceded by a trigger since the previous one (trailing off: by one that came >= a period later), trailing on: at every quiescent point a waiting Next has been served once trigger and period are due, after Cancel every Next returns false with zero virtual time elapsed, also after further Calls; non-trivial = >= 2 events; distinct by hash of the case without the repetition index")
+	r.Rule("all inside testing/synctest bubbles (-race build), timestamps are exact virtual instants. delay: Delay(d) with Stop at instants around d: not before d, once, not after Stop, does run otherwise. debounce: scripts of call / burst of 3 concurrent calls / cancel with gaps below and above the wait (never equal): a function runs iff no call or cancel follows within the wait, exactly one per burst, never sooner than wait after the latest call, also when the debounced function itself takes time (0.6 / 1.7 waits) so that calls and cancels arrive while it runs. throttle: scripts of Call / burst of 3 concurrent Calls with gaps around the period, consumer goroutines looping on Next (always waiting, late, with simulated work, two consumers), Cancel at the end: permissions >= one period apart, each preceded by a trigger since the previous one (trailing off: by one that came >= a period later), trailing on: at every quiescent point a waiting Next has been served once trigger and period are due, after Cancel every Next returns false with zero virtual time elapsed, also after further Calls; throttle-realtime: the same throttle on the real clock under a storm of Call() from 2-3 goroutines, permissions taken in pairs and bracketed by monotonic clock readings (bracket < period = two permissions within one period; one-sided, load-proof); non-trivial = >= 2 events; distinct by hash of the case without the repetition index")
 
 	core.Monitor(r, "delay", 0, func(emit func(DelayCase)) {
 		for _, d := range []int{5000, 20000, 50000} {
@@ -484,6 +568,10 @@ func TestProp(t *testing.T) {
 				for rep := 0; rep < reps; rep++ {
 					emit(DebCase{WaitUs: wt, Events: ev, Rep: rep})
 				}
+				if len(ev) <= r.Pick(3, 4) { // the debounced function itself takes 0.6 / 1.7 waits
+					emit(DebCase{WaitUs: wt, Events: ev, WorkUs: wt*6/10 + 19})
+					emit(DebCase{WaitUs: wt, Events: ev, WorkUs: wt*17/10 + 23})
+				}
 			})
 		}
 		r.Exhaustive(fmt.Sprintf("debounce: all scripts of length<=%d over {call, burst, cancel} x 4 gaps (0.3, 0.9, 1.2, 3 x wait) x waits {5ms, 50ms}", r.Pick(4, 5)), n)
@@ -492,6 +580,9 @@ func TestProp(t *testing.T) {
 		for i := r.Pick(300, 5000); i > 0; i-- {
 			wt := []int{5000, 20000, 50000}[rng.Intn(3)]
 			c := DebCase{WaitUs: wt}
+			if i%3 == 0 {
+				c.WorkUs = rng.Range(1, 2*wt)
+			}
 			for k := rng.Range(1, 50); k > 0; k-- {
 				g := rng.Range(1, wt-1)
 				if rng.Chance(1, 6) {
@@ -563,4 +654,17 @@ func TestProp(t *testing.T) {
 			emit(c)
 		}
 	}, runThr)
+
+	core.Monitor(r, "throttle-realtime", 6, func(emit func(RTCase)) {
+		for rep := 0; rep < r.Pick(3, 12); rep++ {
+			for _, tr := range []bool{true, false} {
+				for _, P := range []int{250, 1000, 4000} {
+					if r.Quick() && (P == 4000 || (!tr && rep > 0)) {
+						continue
+					}
+					emit(RTCase{PeriodUs: P, Trailing: tr, RunMs: r.Pick(1200, 5000), Callers: 2 + rep%2, Rep: rep})
+				}
+			}
+		}
+	}, runRT)
 }
